@@ -264,6 +264,90 @@ def _poly(t):
     return {(t,): Fraction(1)}
 
 
+def _from_poly(p):
+    """canonical term of a polynomial: monomials sorted, factors sorted"""
+    if not p:
+        return ZERO
+    out = None
+    for m in sorted(p, key=lambda m_: (len(m_), repr(m_))):
+        c = p[m]
+        t = None
+        for a in m:
+            t = a if t is None else ('*', t, a)
+        if t is None:
+            t = ('num', abs(c))
+        elif abs(c) != 1:
+            t = ('*', ('num', abs(c)), t)
+        if out is None:
+            out = t if c > 0 else ('neg', t)
+        else:
+            out = ('+', out, t) if c > 0 else ('-', out, t)
+    return out
+
+
+def canon(t):
+    """canonical form modulo commutativity / associativity / distributivity of + - * (a ring
+    identity: valid for unsigned integer arithmetic and over the reals); other operators are
+    canonicalised in their arguments only"""
+    if not isinstance(t, tuple) or not t:
+        return t
+    k = t[0]
+    if k in ('num', 'sym', 'bool', 'str', 'chr', 'const', 'enum'):
+        return t
+    if k in ('+', '-', '*', 'neg'):
+        def atom(x):
+            return canon(x)
+        p = _poly_c(t)
+        return _from_poly(p)
+    return (k,) + tuple(canon(c) if isinstance(c, tuple) else c for c in t[1:])
+
+
+def _poly_c(t):
+    """like _poly, but the atoms are canonicalised first"""
+    if is_num(t):
+        return {(): t[1]} if t[1] != 0 else {}
+    if isinstance(t, tuple) and t and t[0] in ('+', '-') and len(t) == 3:
+        a, b = _poly_c(t[1]), _poly_c(t[2])
+        out = dict(a)
+        for m, c in b.items():
+            out[m] = out.get(m, 0) + (c if t[0] == '+' else -c)
+        return {m: c for m, c in out.items() if c != 0}
+    if isinstance(t, tuple) and t and t[0] == 'neg':
+        return {m: -c for m, c in _poly_c(t[1]).items()}
+    if isinstance(t, tuple) and t and t[0] == '*' and len(t) == 3:
+        a, b = _poly_c(t[1]), _poly_c(t[2])
+        if len(a) * len(b) > 256:
+            return {(canon_args(t),): Fraction(1)}
+        out = {}
+        for m1, c1 in a.items():
+            for m2, c2 in b.items():
+                m = tuple(sorted(m1 + m2, key=repr))
+                out[m] = out.get(m, 0) + c1 * c2
+        return {m: c for m, c in out.items() if c != 0}
+    return {(canon(t),): Fraction(1)}
+
+
+def canon_args(t):
+    return (t[0],) + tuple(canon(c) if isinstance(c, tuple) else c for c in t[1:])
+
+
+def canon_idx(t):
+    """canonicalise the index argument of every element selection (integer ring identities only; the
+    floating-point structure of the term is left alone)"""
+    if not isinstance(t, tuple) or not t:
+        return t
+    if t[0] in ('num', 'sym', 'bool', 'str', 'chr'):
+        return t
+    if t[0] == 'sel' and len(t) == 3:
+        return ('sel', canon_idx(t[1]), canon(t[2]))
+    return (t[0],) + tuple(canon_idx(c) if isinstance(c, tuple) else c for c in t[1:])
+
+
+def same(a, b):
+    """equal modulo ring identities"""
+    return a == b or canon(a) == canon(b)
+
+
 def diff(a, b):
     """a - b, simplified when the difference collapses (e.g. (i+1)*n - i*n = n); otherwise the plain
     subtraction term"""
